@@ -208,3 +208,6 @@ def check(prog: Program, rep):
     # (or queued fix) is stated (C05.R1)
     from rules.common import RuleProxy as _RPf
     semantic.flag_pairing(prog, _RPf(rep, "C02.R2"), "C05.R1")
+    if _pa(prog, rep, "C02.R11", [prog.own_method("AbstractWalkModelDiGraph", "_encode_walks")],
+           "the big-M of row 22a (sum of the repetition bounds of the edges entering a node) comes out as 0 or negative, no walk can enter the node and a decomposable flow is infeasible (np.uint8 128 + 128 = 0)") < 1:
+        raise _AE("_encode_walks: the sum of the repetition bounds was not found")
